@@ -5,6 +5,8 @@ import ckprop
 import common
 import genck
 import implck
+import genre
+from props import C10 as _C10
 
 DESCRIPTION = ("Lean: Props/C11.lean (in-progress set after = before for every oracle; the surfaced exception is the injected "
                "one or the documented wrapper chaining it). Harness: for every site the fault-free trace of a scenario passes, "
@@ -109,6 +111,17 @@ def _probe(base, falsy_first):
 
 def cases(tier, rng):
     thorough = tier == "thorough"
+    # invariant wrappers: sequences of operations on instances in which invariants fail at any point,
+    # followed by further operations in the same context (sync and async methods)
+    for _ in range(6000 if thorough else 800):
+        c_ = genre.random_program(rng, nfns=1, ncls=2, max_calls=2, p_false=0.35)
+        if genre.cost_within(c_):
+            yield "inv-seq", c_
+    yield from _ck_cases(tier, rng)
+
+
+def _ck_cases(tier, rng):
+    thorough = tier == "thorough"
     nscen = 1500 if thorough else 160
     scen = []
     for i in range(nscen):
@@ -194,17 +207,35 @@ def _model_step(step):
 
 
 def driver_inputs(case):
+    if case.get('dom') == 'reentry':
+        return [case]
+    return _ck_driver_inputs(case)
+
+
+def _ck_driver_inputs(case):
     return [{"dom": "checkerseq", "steps": [_model_step(s) for s in case["steps"]]}] + \
            [_model_step(s) for s in case["steps"][case["nfault"]:]]
 
 
 def run_impl(case):
+    if case.get('dom') == 'reentry':
+        return _C10.run_impl(case)
+    return _ck_run_impl(case)
+
+
+def _ck_run_impl(case):
     res = implck.run_seq(case["steps"])
     fresh = [implck.run(s) for s in case["steps"][case["nfault"]:]]
     return {"seq": res, "fresh": fresh}
 
 
 def model_view(case, mos):
+    if case.get('dom') == 'reentry':
+        return _C10.model_view(case, mos[0])
+    return _ck_model_view(case, mos)
+
+
+def _ck_model_view(case, mos):
     seq = [implck.model_view(s, m) for s, m in zip(case["steps"], mos[0]["steps"])]
     fresh = [implck.model_view(s, m) for s, m in zip(case["steps"][case["nfault"]:], mos[1:])]
     return {"seq": seq, "fresh": fresh}
@@ -215,6 +246,12 @@ def _strip_repr(tr):
 
 
 def project(case, obs):
+    if case.get('dom') == 'reentry':
+        return _C10.project(case, obs)
+    return _ck_project(case, obs)
+
+
+def _ck_project(case, obs):
     out = []
     for o in obs["seq"]:
         if o.get("define", ["ok"]) != ["ok"]:
@@ -225,6 +262,12 @@ def project(case, obs):
 
 
 def spec(case, mos, io):
+    if case.get('dom') == 'reentry':
+        return _C10.spec(case, mos[0], io)
+    return _ck_spec(case, mos, io)
+
+
+def _ck_spec(case, mos, io):
     fails = []
     seq = io["seq"]
     if any(o.get("define", ["ok"]) != ["ok"] for o in seq):
@@ -268,15 +311,33 @@ def spec(case, mos, io):
 
 
 def classify(case, mos, io, fails):
+    if case.get('dom') == 'reentry':
+        return _C10.classify(case, mos[0], io, fails)
+    return _ck_classify(case, mos, io, fails)
+
+
+def _ck_classify(case, mos, io, fails):
     return "unclassified"
 
 
 def nontrivial_key(case, mos):
+    if case.get('dom') == 'reentry':
+        return _C10.nontrivial_key(case, mos[0])
+    return _ck_nontrivial_key(case, mos)
+
+
+def _ck_nontrivial_key(case, mos):
     s = case["steps"][0]
     return (ckprop.shape_key(s), tuple(case["site"]), case["exc"]["id"], case["nfault"])
 
 
 def stats(case, mos, io, dist):
+    if case.get('dom') == 'reentry':
+        return _C10.stats(case, mos[0], io, dist)
+    return _ck_stats(case, mos, io, dist)
+
+
+def _ck_stats(case, mos, io, dist):
     dist["site:" + case["site"][0]] += 1
     dist["delivery:" + case["delivery"]] += 1
     dist["exc:" + ("Exception" if case["exc"]["isException"] else "BaseException")] += 1
@@ -287,6 +348,9 @@ def stats(case, mos, io, dist):
 
 
 def shrink_candidates(case):
+    if case.get("dom") == "reentry":
+        yield from _C10.shrink_candidates(case)
+        return
     if case["nfault"] > 1:
         c = copy.deepcopy(case)
         c["steps"].pop(1)
